@@ -1621,6 +1621,23 @@ class Evaluator:
                 if not self._iterable(i):
                     raise Raised("TypeError")
             return iter([self.apply(args[0], list(xs)) for xs in zip(*[list(self._iterate(i)) for i in its])])
+        if name == "itertools.chain.from_iterable":
+            if len(args) != 1 or kwargs:
+                raise Raised("TypeError")
+            if args[0] is POISON:
+                return POISON
+            if not self._iterable(args[0]):
+                raise Raised("TypeError")
+
+            def flat(outer=args[0]):
+                for inner in self._iterate(outer):
+                    if inner is POISON:
+                        raise Unknown("chain.from_iterable over an undetermined element")
+                    if not self._iterable(inner):
+                        raise Raised("TypeError")
+                    yield from self._iterate(inner)
+
+            return flat()
         if name in ("itertools.accumulate", "functools.reduce"):
             # accumulate(iterable, func=operator.add, *, initial=None) / reduce(func, iterable[, initial])
             if name == "itertools.accumulate":
